@@ -744,9 +744,11 @@ func writeFieldReadByter(name string, typ FieldType, w *iohelp.ErrorWriter, sett
 		}
 		w.SafeWrite([]byte(strings.Replace(ln, "=", ":=", 1)))
 		elem := "(" + name + ")[" + depthName("k", depth) + "]"
-		if typ.Map.Value.Array != nil || typ.Map.Value.Map != nil {
-			// a container value is filled in a local and stored afterwards: reading
-			// m[k] back while filling it yields the zero value when k is NaN
+		_, fixed := fixedSizeTypes[typ.Map.Value.Simple]
+		if !fixed {
+			// the value is decoded into a local and stored afterwards: the templates read the
+			// value back to fill it (containers) or to advance the cursor (strings, records),
+			// and m[k] reads back the zero value when k is NaN
 			tmp := depthName("mv", depth)
 			writeLineWithTabs(w, "var "+tmp+" "+typ.Map.Value.goString(settings), depth+1)
 			writeFieldReadByter(tmp, typ.Map.Value, w, settings, depth+1, safe)
